@@ -222,7 +222,7 @@ func genesisSpec(loc common.Location) *core.Genesis {
 const FundedKeys = 4
 
 // GenesisAllocation is the amount each funded key receives.
-var GenesisAllocation = new(big.Int).Mul(big.NewInt(1_000_000), big.NewInt(1e18))
+var GenesisAllocation = new(big.Int).Mul(big.NewInt(100_000_000), big.NewInt(1e18))
 
 func GenesisAllocs() []params.GenesisAccount {
 	var out []params.GenesisAccount
@@ -250,7 +250,9 @@ func StartNode(loc common.Location, db ethdb.Database, o NodeOpts) (n *Node, err
 	}
 	chainCfg := &params.ChainConfig{ChainID: cfg.ChainID, ConsensusEngine: "blake3", Blake3Pow: cfg.Blake3Pow, Progpow: cfg.Progpow, Location: loc, DefaultGenesisHash: ghash, IndexAddressUtxos: o.IndexAddressUtxos}
 	powCfg := params.PowConfig{PowMode: params.ModeNormal, DurationLimit: big.NewInt(5), GasCeil: 50000000, MinDifficulty: big.NewInt(16), NodeLocation: loc, GenAllocs: GenesisAllocs()}
-	engine := []consensus.Engine{blake3pow.New(powCfg, nil, false, logger)}
+	// engine[0] = Progpow slot, engine[1] = Kawpow slot (the address-index code indexes engine[Kawpow])
+	b3 := blake3pow.New(powCfg, nil, false, logger)
+	engine := []consensus.Engine{b3, b3}
 	quaiCb, qiCb := o.QuaiCoinbase, o.QiCoinbase
 	if quaiCb.Equal(common.Address{}) {
 		quaiCb = DefaultQuaiCoinbase
@@ -307,7 +309,7 @@ func NewNet(opt Options) (*Net, error) {
 	// prime's genesis goroutine propagates the genesis pending header once a sub client exists
 	deadline := time.Now().Add(5 * time.Second)
 	for {
-		if n.Nodes[Zone].Core.Slice().ReadBestPh() != nil {
+		if n.Nodes[Zone].Core.Slice().ReadBestPh() != nil && n.Nodes[Region].Core.Slice().ReadBestPh() != nil && n.Nodes[Prime].Core.Slice().ReadBestPh() != nil {
 			break
 		}
 		if time.Now().After(deadline) {
@@ -352,6 +354,11 @@ func (nd *Node) Stop() {
 	nd.Core.Stop()
 }
 
+// LockupContract is the zone's lockup precompile address.
+func LockupContract() common.Address {
+	return vm.LockupContractAddresses[[2]byte{ZoneLoc[0], ZoneLoc[1]}]
+}
+
 // Heads are the current tips (prime, region, zone views) a new block is mined on.
 type Heads [3]*types.WorkObject
 
@@ -371,9 +378,11 @@ type MineOpts struct {
 
 // Block is what one mining step produced.
 type Block struct {
-	Views [3]*types.WorkObject // nil above the block's order
-	Order int
-	Etxs  types.Transactions // outbound ETXs returned by the append at the block's order
+	Parents Heads                // heads the block was mined on
+	After   Heads                // heads after the block
+	Views   [3]*types.WorkObject // nil above the block's order
+	Order   int
+	Etxs    types.Transactions // outbound ETXs returned by the append at the block's order
 }
 
 func (b *Block) Zone() *types.WorkObject { return b.Views[Zone] }
